@@ -84,14 +84,16 @@ func (wtr *XMLWtr) container(lvl int) node.Node {
 		return wtr.container(lvl + 1), nil
 	}
 	s.OnBeginEdit = func(r node.NodeRequest) error {
-		if !meta.IsLeaf(r.Selection.Meta()) && !r.Selection.InsideList && !meta.IsList(r.Selection.Meta()) {
-			if lvl == 0 && first {
-				ns := wtr.getXmlns(r.Selection.Path)
-				ident := wtr.ident(r.Selection.Path) + " xmlns=" + "\"" + ns + "\""
-				if err := wtr.beginContainer(ident); err != nil {
-					return err
-				}
+		if lvl == 0 && first && !meta.IsLeaf(r.Selection.Meta()) {
+			// the element of the start selection, whatever it is: a container, one entry of a
+			// list, or a list (its entries are then inside an element of the list's name, as
+			// WriteXMLDoc has them).  OnEndEdit of Node() closes it.
+			ident := wtr.ident(r.Selection.Path) + " xmlns=\"" + escapeXMLAttr(wtr.getXmlns(r.Selection.Path)) + "\""
+			if err := wtr.beginContainer(ident); err != nil {
+				return err
 			}
+			first = false
+		} else if !meta.IsLeaf(r.Selection.Meta()) && !r.Selection.InsideList && !meta.IsList(r.Selection.Meta()) {
 			first = false
 		}
 		return nil
@@ -172,9 +174,16 @@ func (wtr *XMLWtr) changedXmlns(p *node.Path) string {
 
 func (wtr *XMLWtr) xmlnsAttr(p *node.Path) string {
 	if ns := wtr.changedXmlns(p); ns != "" {
-		return " xmlns=\"" + ns + "\""
+		return " xmlns=\"" + escapeXMLAttr(ns) + "\""
 	}
 	return ""
+}
+
+// a namespace is any URI: & < > and quotes are escaped inside the attribute
+func escapeXMLAttr(s string) string {
+	var b bytes.Buffer
+	xml.EscapeText(&b, []byte(s))
+	return b.String()
 }
 
 func (wtr *XMLWtr) beginContainer(ident string) (err error) {
